@@ -3,11 +3,12 @@
   `c10-raw`: the harness sends the `nodeJSON` tree of a policy-JSON condition body (as `encoding/json`
   populates it: `nil` for a `null` record entry, `zero` for `null`/`{}` in a by-value position); the
   model answers what the Go code must do with it at each stage:
-    dec   = `ast.Policy.UnmarshalJSON`            ok | reject | panic
+    dec   = `ast.Policy.UnmarshalJSON`            ok | reject   (the model has no panic branch: C10_json_decoder_wf)
     eval  = `cedar.NewPolicyFromAST` + evaluation  ok | panic      (ToEval)
     cedar = `MarshalCedar`                         ok | panic
     json  = `MarshalJSON`                          ok | panic
-    wf    = the decoded tree satisfies `RawExpr.WF`
+    wf    = the decoded tree satisfies `RawExpr.WF`            (always true: C10_json_decoder_wf)
+    recv  = the decoded tree satisfies `RawExpr.HasReceivers`  (always true: C10_json_decoder_wf)
 -/
 import CedarGo.Driver.Ops.Core
 import CedarGo.Model.RawAst
@@ -53,10 +54,10 @@ def showStageC10 {α : Type} : Except Err α → String
 def opC10Raw : Handler := fun _ j => do
   let n ← decNodeJSONC10 (← field j "raw")
   match n.toNode with
-  | .error .reject => .ok "dec=reject eval=- cedar=- json=- wf=-"
-  | .error .panic => .ok "dec=panic eval=- cedar=- json=- wf=-"
+  | .error .reject => .ok "dec=reject eval=- cedar=- json=- wf=- recv=-"
+  | .error .panic => .ok "dec=panic eval=- cedar=- json=- wf=- recv=-"
   | .ok r =>
-    .ok s!"dec=ok eval={showStageC10 r.toExpr?} cedar={showStageC10 r.marshalSkel} json={showStageC10 r.jsonSkel} wf={r.wfb}"
+    .ok s!"dec=ok eval={showStageC10 r.toExpr?} cedar={showStageC10 r.marshalSkel} json={showStageC10 r.jsonSkel} wf={r.wfb} recv={r.recvb}"
 
 def c10Ops : List (String × Handler) := [("c10-raw", opC10Raw)]
 
